@@ -377,7 +377,9 @@ func setupTwo() (*state, sdkmath.Int, sdkmath.Int) {
 	s.restLp = s.restLp.Sub(lp2)
 	s.restDebt = s.restDebt.Sub(debt2)
 	vrf.Assume(s.count >= 2) // the counter already counts it
-	p := levtypes.NewPosition(owner2.String(), sdk.NewCoin(usdc, vrf.Int("position2Collateral")), 1)
+	coll2 := vrf.Int("position2Collateral")
+	vrf.Assume(coll2.IsPositive())
+	p := levtypes.NewPosition(owner2.String(), sdk.NewCoin(usdc, coll2), 1)
 	p.Id = 2
 	p.LeveragedLpAmount, p.Liabilities, p.StopLossPrice = lp2, debt2, sdkmath.LegacyZeroDec()
 	env.Lev.SetPosition(ctx, p)
@@ -450,6 +452,7 @@ func H_ClosePositions_Two() {
 }
 
 // open by an owner who already holds a position of the same pool and collateral: consolidated into it
+//
 //vrf:cover open-ok
 //vrf:bound 1 existing position + symbolic remainder; consolidating open with symbolic collateral and leverage in (1, 10]; join amount havocked
 //vrf:max-paths 3000
@@ -470,4 +473,10 @@ func H_Open_Consolidate() {
 	vrf.Assert(env.Lev.GetPositionCount(ctx) == 1, "C08 consolidate: no new position id is allocated")
 	vrf.Assert(env.W.BalOf(owner, usdc).Equal(s.wallet.Sub(coll)), "C08 consolidate: the owner pays exactly the collateral")
 	s.check("open-consolidate", 1)
+}
+
+// SetupTwoPositions exposes the two-position state to other harness packages (C18).
+func SetupTwoPositions() *wire.Env {
+	s, _, _ := setupTwo()
+	return s.env
 }
